@@ -46,14 +46,14 @@ def WellFormed (v : Val) : Prop := Typing.checkVal false v (typeOf v) = true ∧
 body (its MAP bodies keep the element type) -/
 def StrictWF (v : Val) : Prop := Typing.checkVal true v (typeOf v) = true ∧ Typing.litOk v = true
 
-/-- **shape digests**: for each of the 91 instruction forms, the helpers (`execute_dip`, `execute_shift`, `dispatch_types`
+/-- **shape digests**: for each of the 98 instruction forms, the helpers (`execute_dip`, `execute_shift`, `dispatch_types`
 …) and the `MichelsonStack` / `PairType` / `from_value` methods they call, the normalised statement list in the source
 is the one the mirror `Impl` was written from (translator/c01.py, `SHAPES`) -/
 theorem source_bodies_recognised : Generated.C01.bodyRecognised.all (·.2) = true := by decide
 
-/-- the digest list covers all 91 instruction forms -/
-theorem source_bodies_cover_all_forms : Generated.C01.modelledForms = 91 ∧ 91 ≤ Generated.C01.bodyRecognised.length := by
-  decide
+/-- the digest list covers all 98 instruction forms -/
+theorem source_bodies_cover_all_forms : Generated.C01.modelledForms = 98 ∧ 98 ≤ Generated.C01.bodyRecognised.length := by
+  decide +kernel
 
 /-- the `dispatch_types` tables read from arithmetic.py are the reference tables -/
 theorem arithmetic_tables_eq_reference :
@@ -223,7 +223,7 @@ end
 the PUSHed lambda literals, in LAMBDA bodies — leaves an element of the type it was given.  For such programs, run on
 strictly well-typed values (`StrictWF`: the lambdas on the input stack have strictly typed bodies too), the guard of
 `welltyped_run_eq_reference` never fires, so C01's statement holds with static hypotheses only.  The invariant "every
-lambda on the stack has a strictly typed body" is carried through all 91 instruction forms by the same preservation /
+lambda on the stack has a strictly typed body" is carried through all 98 instruction forms by the same preservation /
 progress development as the non-strict one, instantiated at the mode `Mode.strictGuarded`. -/
 
 /-- strict typing refines typing: same result -/
@@ -406,6 +406,29 @@ example (vp : List Nat → Int) (h : Hashes) (k : List Nat) (hv : 0 ≤ vp (h.ha
       = .ok [.num .nat (vp (h.hashKey k)), .atom .keyHash (h.hashKey k)] :=
   run_ok _ 20 _ [] _ (by simp [Spec.eval, Spec.evalSeq, Spec.step, Spec.stepMore, Spec.stepExt, Spec.unV, Spec.hashKeyV,
     Spec.votingPowerV, Spec.numOk, Res.bind, hv])
+
+-- phase C: contracts and operations (address texts as character codes: `KT1` = [75, 84, 49], `tz1` = [116, 122, 49], `%` = 37,
+-- `a` = [97], `b` = [98]).  The address of a handle names its entrypoint, and CONTRACT finds the entrypoint again; an address
+-- that names an entrypoint cannot be asked for another one; an implicit account is a `contract unit` only
+def envC : Env := { env0 with self := [75, 84, 49] }
+example : Spec.eval true envC 20 (.seq [.SELF [97] .nat, .ADDRESS, .DUP, .CONTRACT .nat defaultEp, .SWAP, .CONTRACT .nat [98]]) []
+    = .ok [.none (.contract .nat), .some (.contract .nat [75, 84, 49, 37, 97])] := by rfl
+example : Spec.eval true envC 20 (.seq [.PUSH .address (.atom .address [116, 122, 49]), .DUP, .CONTRACT .nat defaultEp, .SWAP,
+      .CONTRACT .unit defaultEp]) []
+    = .ok [.some (.contract .unit [116, 122, 49]), .none (.contract .nat)] := by rfl
+-- TRANSFER_TOKENS records source, destination, entrypoint, amount and the parameter; SET_DELEGATE and EMIT likewise — and
+-- the machine builds exactly these operations
+example : Impl.run envC 20 (.seq [.PUSH .address (.atom .address [75, 84, 50, 37, 97]), .CONTRACT .nat defaultEp,
+      .IF_NONE (.seq [.UNIT, .FAILWITH]) (.seq [.PUSH .mutez (.num .mutez 0), .PUSH .nat (.num .nat 7), .TRANSFER_TOKENS])]) []
+    = .ok [.opTransfer [75, 84, 49] [75, 84, 50] [97] 0 (.num .nat 7) .nat] :=
+  run_ok envC 20 _ [] _ (by rfl)
+example : Impl.run envC 20 (.seq [.PUSH .keyHash (.atom .keyHash [116, 122, 49]), .DUP, .IMPLICIT_ACCOUNT, .ADDRESS, .SWAP, .SOME,
+      .SET_DELEGATE, .UNIT, .EMIT [120] .unit]) []
+    = .ok [.opEmit [75, 84, 49] [120] .unit .unit, .opDelegate [75, 84, 49] (some [116, 122, 49]), .atom .address [116, 122, 49]] :=
+  run_ok envC 20 _ [] _ (by rfl)
+example : Typing.typeInstr false (.seq [.PUSH .address (.atom .address [75, 84, 50, 37, 97]), .CONTRACT .nat defaultEp,
+      .IF_NONE (.seq [.UNIT, .FAILWITH]) (.seq [.PUSH .mutez (.num .mutez 0), .PUSH .nat (.num .nat 7), .TRANSFER_TOKENS]),
+      .NIL .operation, .SWAP, .CONS]) [] = some (.ok [.list .operation]) := by rfl
 
 -- non-vacuity of `welltyped_run_eq_reference` / `progress`: a well-typed program with a loop, a lambda call and a sorted
 -- set literal, run on a well-typed input stack; the hypotheses hold and the run is inside the guard
